@@ -105,7 +105,7 @@ def key_alphabet(rng, n, max_key_len=None):
 
 def value_near(rng, cap=CAP, dist=None):
     """multiplicities: 0, 1, small, near the ceiling, beyond it, and 'distance to ceiling ±1'"""
-    choices = [0, 1, 1, 1, 2, 3, rng.randrange(1, 50), rng.randrange(1, 1000), cap - 3, cap - 1, cap, cap + 1, cap + 3,
+    choices = [0, 1, 1, 1, 2, 3, rng.randrange(1, 50), rng.randrange(1, 1000), cap // 2 + 1, cap // 2 + 7, 3 * 10**9 if cap > 3 * 10**9 else cap - 2, cap - 3, cap - 1, cap, cap + 1, cap + 3,
                2**32, 2**40, rng.randrange(cap // 2, cap)]
     if dist is not None:
         choices += [max(dist - 1, 0), dist, dist + 1, dist, max(dist - 1, 0)]
